@@ -626,10 +626,18 @@ class Impl:
                 classes_of.append(type('C17Sibling%d' % n, (self.cls,), ns))
         try:
             for n, p in enumerate(self.paths):
-                o = classes_of[n](p)
-                if warm:
-                    # the walk exportObject does for the last interface of getInterfaces(): builds every class cache
-                    o.getAllProperties(PROPS)
+                if case.get('ctor'):
+                    # explicit construction: the history says when DBusObject.__init__ runs ('init' op); property
+                    # assignments before it are what a subclass __init__ does before chaining up
+                    o = classes_of[n].__new__(classes_of[n])
+                    if warm:
+                        # (the interface caches live on the classes: a throw-away instance builds them)
+                        classes_of[n]('/probe').getAllProperties(PROPS)
+                else:
+                    o = classes_of[n](p)
+                    if warm:
+                        # the walk exportObject does for the last interface of getInterfaces(): builds every class cache
+                        o.getAllProperties(PROPS)
                 self.objs.append(o)
             self.decl_lines.append('ok')
         except (AttributeError, KeyError):
@@ -645,6 +653,9 @@ class Impl:
         from txdbus import message, marshal
         n0 = len(self.conn.sent)
         kind = op[0]
+        if kind == 'init':
+            self.objects_mod.DBusObject.__init__(self.objs[op[1]], self.paths[op[1]])
+            return None, [], False
         if kind == 'export':
             exc = False
             try:
@@ -706,6 +717,8 @@ def enc_case(case):
     nd = len(lines)
     for op in case['ops']:
         k = op[0]
+        if k == 'init':
+            continue                       # construction is not an operation of the model
         if k == 'export':
             lines.append('export %d' % op[1])
         elif k == 'assign':
@@ -1032,6 +1045,9 @@ def run_case(case, model_lines=None):
     if impl.failed is None:
         for idx, op in enumerate(case['ops']):
             line, obs, raised = impl.run_op(op)
+            if line is None:
+                stats['init'] = stats.get('init', 0) + 1
+                continue
             out.append(line)
             orc.step(idx, op, obs, raised)
             k = op[0] + (':' + line.split(' ')[0] if op[0] != 'export' else '')
@@ -1074,6 +1090,8 @@ def run_oracle_only(case, warm):
     ret = asg = False
     for idx, op in enumerate(case['ops']):
         line, obs, raised = impl.run_op(op)
+        if line is None:
+            continue
         orcs[op[1]].step(idx, op, obs, raised)
         k = op[0] + ':' + coarse(line).split(' | ')[-1].split(' ')[0]
         stats[k] = stats.get(k, 0) + 1
@@ -1229,11 +1247,26 @@ def gen_ops(rng, classes, nobj, nops, wrong=0.2):
     # initial assignments
     for o in range(nobj):
         full = rng.random() < 0.85      # (a partly assigned object usually cannot be exported at all)
+        # construction style: each property is assigned before DBusObject.__init__ runs (a subclass __init__
+        # that sets its properties first), after it, or in both places (the later assignment counts)
+        style = rng.choice(['after', 'after', 'before', 'mixed', 'mixed'])
+        post = []
         for a, i, p, q in info:
             if full or rng.random() < 0.5:
                 v = good_value(rng, q[1])
-                if keep(v):
+                if not keep(v):
+                    continue
+                where = {'after': 'a', 'before': 'b'}.get(style) or rng.choice('abx')
+                if where in 'bx':
                     ops.append(['assign', o, a, v])
+                if where == 'x':
+                    v = good_value(rng, q[1])
+                    if not keep(v):
+                        continue
+                if where in 'ax':
+                    post.append(['assign', o, a, v])
+        ops.append(['init', o])
+        ops.extend(post)
         if rng.random() < 0.9 or o == 0:
             ops.append(['export', o])
             exported.add(o)
@@ -1307,7 +1340,9 @@ def gen_matrix_cases(rng, full):
                 f = {'name': 'org.m', 'props': [['P', sig, r, w, e]]}
                 classes = [{'ifaces': [f], 'descs': [['attr', 'P', 'org.m' if rng.random() < 0.5 else None]]}]
                 g1, g2, g3 = good_value(rng, sig), good_value(rng, sig), plain(good_value(rng, sig))
-                ops = [['assign', 0, 'attr', g1], ['export', 0], ['get', 0, 'org.m', 'P'], ['getall', 0, 'org.m'],
+                pre = rng.random() < 0.5     # the first assignment happens before DBusObject.__init__ runs
+                ops = ([['assign', 0, 'attr', g1], ['init', 0]] if pre else [['init', 0], ['assign', 0, 'attr', g1]])
+                ops += [['export', 0], ['get', 0, 'org.m', 'P'], ['getall', 0, 'org.m'],
                        ['assign', 0, 'attr', g2], ['get', 0, 'org.m', 'P']]
                 wt = wire_type_for(rng, g3, prefer=sig)
                 if wt:
@@ -1322,7 +1357,7 @@ def gen_matrix_cases(rng, full):
                 wt = wire_type_for(rng, g3)
                 if wt:
                     ops.append(['set', 0, 'org.n', 'P', g3, wt])
-                cases.append({'classes': classes, 'nobj': 1, 'ops': ops})
+                cases.append({'classes': classes, 'nobj': 1, 'ctor': True, 'ops': ops})
     # unassigned and emits=const
     for sig in ['i', 's', 'as']:
         f = {'name': 'org.m', 'props': [['P', sig, True, True, 't']]}
@@ -1365,10 +1400,15 @@ def gen_sibling_case(rng):
     ops = []
     for o in (0, 1):
         chain = [sibs[o]] + base
+        before = rng.random() < 0.4
+        if not before:
+            ops.append(['init', o])
         for a, i, p in decl_props(chain):
             i2, q = resolve(chain, i, p)
             if q is not None and rng.random() < 0.9:
                 ops.append(['assign', o, a, good_value(rng, q[1])])
+        if before:
+            ops.append(['init', o])
         ops.append(['export', o])
     for _ in range(rng.randrange(4, 14)):
         o = rng.randrange(2)
@@ -1393,7 +1433,7 @@ def gen_sibling_case(rng):
             wt = wire_type_for(rng, v, prefer=q[1])
             if wt:
                 ops.append(['set', o, i, p, v, wt])
-    return {'classes': base, 'siblings': sibs, 'nobj': 2, 'ops': ops, 'kind': kind}
+    return {'classes': base, 'siblings': sibs, 'nobj': 2, 'ctor': True, 'ops': ops, 'kind': kind}
 
 
 SIBLING_KEY = 'sibling-classes-share-descriptor'
@@ -1548,14 +1588,14 @@ def run(ctx):
     for _ in range(n):
         classes = gen_decl_collision(ctx.rng)
         nobj = ctx.rng.choice([1, 1, 2])
-        cases.append({'classes': classes, 'nobj': nobj, 'ops': gen_ops(ctx.rng, classes, nobj, ctx.rng.randrange(4, 24))})
+        cases.append({'classes': classes, 'nobj': nobj, 'ctor': True, 'ops': gen_ops(ctx.rng, classes, nobj, ctx.rng.randrange(4, 24))})
     run_batch(ctx, 'collision-inheritance', cases, seen)
     n = ctx.scale(quick=900, thorough=12000)
     cases = []
     for _ in range(n):
         classes = gen_decl_random(ctx.rng)
         nobj = ctx.rng.choice([1, 1, 2])
-        cases.append({'classes': classes, 'nobj': nobj, 'ops': gen_ops(ctx.rng, classes, nobj, ctx.rng.randrange(3, 30))})
+        cases.append({'classes': classes, 'nobj': nobj, 'ctor': True, 'ops': gen_ops(ctx.rng, classes, nobj, ctx.rng.randrange(3, 30))})
     run_batch(ctx, 'random-histories', cases, seen)
     # ---- oracle-only streams (the model covers neither): assignments before any walk of the class caches
     # (the normal "assign in __init__, then export" order), and sibling subclasses of a common base
@@ -1564,7 +1604,7 @@ def run(ctx):
     for _ in range(n):
         classes = gen_decl_random(ctx.rng) if ctx.rng.random() < 0.6 else gen_decl_collision(ctx.rng)
         nobj = ctx.rng.choice([1, 2])
-        cases.append({'classes': classes, 'nobj': nobj, 'unwarmed': True,
+        cases.append({'classes': classes, 'nobj': nobj, 'unwarmed': True, 'ctor': True,
                       'ops': gen_ops(ctx.rng, classes, nobj, ctx.rng.randrange(3, 16))})
     run_oracle_stream(ctx, 'lazy-binding', cases, False, seen)
     n = ctx.scale(quick=120, thorough=1500)
